@@ -62,6 +62,10 @@ func kindOfU64(p *Program, e *evaluator, v ssa.Value, depth int) u64Kind {
 					if i == 0 {
 						res = k
 					} else if k.kind != res.kind {
+						if k.kind == "" || res.kind == "" {
+							// unknown provenance on one return: no definite conflict
+							return u64Kind{}
+						}
 						return u64Kind{kind: "mixed", why: "returns of " + g.Name() + " disagree: " + res.kind + " (" + res.why + ") and " + k.kind + " (" + k.why + ")"}
 					}
 				}
@@ -76,6 +80,9 @@ func kindOfU64(p *Program, e *evaluator, v ssa.Value, depth int) u64Kind {
 			if i == 0 {
 				res = k
 			} else if k.kind != res.kind {
+				if k.kind == "" || res.kind == "" {
+					return u64Kind{}
+				}
 				return u64Kind{kind: "mixed", why: "branches disagree"}
 			}
 		}
